@@ -8,6 +8,8 @@ Require Import BS.FS BS.FSFacts BS.Meta BS.MetaFacts BS.Header BS.Reader BS.Read
 Require Import BS.MetaGenFacts.
 Require BSgen.MetaLayout.
 Require Import BS.World BS.Judge BS.JudgeFacts.
+Require Import BS.Common BS.Api BS.Index BS.Data BS.Seek BS.SeekGenFacts.
+Require BSgen.SeekGen BSgen.Consts.
 Import ListNotations.
 
 (* (F) a section is emitted exactly for the first line and when the distance to the last full
@@ -85,3 +87,14 @@ Theorem C15_session_accepted_by_judge : forall (name:list byte) (p:nat) (hdr:lis
   accepted World.init_world judge_init (ONew name (N.of_nat p) hdr [] cb :: ops).
 Proof. exact session_accepted. Qed.
 Print Assumptions C15_session_accepted_by_judge.
+
+(* (source = model = documented rule, re-checked against the current text of src/series/data.rs on every run) the test by
+   which Data::push_data decides between a 16 bit delta and a new full timestamp, as tools/translate_seek.py translated it this
+   time (gen/SeekGen.v gen_starts_section), is the model's test and IS THE 65534 RULE: a new section exactly when the line lies
+   more than 65534 behind the last full timestamp *)
+Theorem C15_source_section_rule_is_model : forall diff, BSgen.SeekGen.gen_starts_section diff = (BSgen.Consts.max_small_ts <? diff)%N.
+Proof. exact gen_starts_section_is_model. Qed.
+Print Assumptions C15_source_section_rule_is_model.
+Theorem C15_source_section_rule : forall diff, BSgen.SeekGen.gen_starts_section diff = true <-> (65534 < diff)%N.
+Proof. exact gen_starts_section_spec. Qed.
+Print Assumptions C15_source_section_rule.
